@@ -274,9 +274,63 @@ def one_fail(run, impl, model, wd, name, crc, ops, ib):
     return res, True, "", ""
 
 
+# ------------------------------------------------------------------------------------------------
+# Free-running writers and the lock skeleton of the call (harness/h_bkpload.c)
+def judge_quiet(out):
+    """the answer of `quiet`: the call succeeds, the image is right, the WAL takes the store's exclusive lock twice (flush of
+    stage 2, last stage) and every write to the target from the first one made under an exclusive lock to the end of the
+    call - the rest of the log after the closing savepoint, the length trailer, the magic - is made under it"""
+    f = dict(x.split("=", 1) for x in out.split()[1:] if "=" in x) if out and out.startswith("Q ") else None
+    if f is None:
+        return "no answer from the harness: %r" % (out,)
+    if f.get("rc") != "0" or f.get("image") != "ok":
+        return "a backup of a quiet store fails or is wrong: %s" % out
+    held = f.get("held", "")
+    if "1" not in held or "0" in held[held.index("1"):] or held.count("1") < 3:
+        return ("the last stage of the backup (rest of the log after the closing savepoint, trailer) is not written under the "
+                "store's exclusive lock: writes to the target made while holding it = %s" % held)
+    if f.get("icpt") != "TFTF":
+        return "exclusive-lock skeleton of the call is %s, the stage model has TFTF (stage 2 and stage 5)" % f.get("icpt")
+    return None
+
+
+def load_stage(run, proofs_ok):
+    impl = vlib.build_harness("h_bkpload")
+    wd = tempfile.mkdtemp(prefix="bkpl-", dir="/dev/shm" if os.path.isdir("/dev/shm") else None)
+    try:
+        cmds = ["quiet %d" % n for n in (1, 8, 200, 3000)]
+        nb = (25 if run.tier == "quick" else 400) * (1 if proofs_ok else 4)
+        for w, k in ((1, 8), (3, 48), (2, 16), (4, 3), (3, 200), (8, 1)):
+            cmds.append("load %d %d %d %d" % (w, k, nb, run.rng.below(1 << 30)))
+        rc, out, err = vlib.run_lines([impl, wd], "\n".join(cmds) + "\n", timeout=1500)
+        out = [l for l in out if l.strip()]
+        for i, c in enumerate(cmds):
+            o = out[i] if i < len(out) else None
+            run.dist("backup-" + c.split()[0])
+            if c.startswith("quiet"):
+                why = judge_quiet(o)
+                run.case("bkpload:" + c, nontrivial=True, sample={"command": c, "answer": o} if i == 2 else None)
+            else:
+                f = dict(x.split("=", 1) for x in o.split()[1:] if "=" in x) if o and o.startswith("L backups=") else None
+                if f is None:
+                    why = "no answer from the harness (it died or hung): %r %s" % (o, (err or "")[-200:])
+                else:
+                    run.cov["backups_under_free_running_writers"] = run.cov.get("backups_under_free_running_writers", 0) + int(f["backups"])
+                    run.cov["writer_updates_during_those"] = run.cov.get("writer_updates_during_those", 0) + int(f["updates"])
+                    why = None if f["violations"] == "0" else o.split("first=", 1)[-1]
+                    run.case("bkpload:%s:%s" % (c, f["updates"]), nontrivial=int(f["updates"]) > 100,
+                             sample={"command": c, "answer": o} if i == 5 else None)
+            if why:
+                run.violation({"harness": "h_bkpload", "commands": [c], "answer": o, "class": "load" if c.startswith("load") else "lock-skeleton"},
+                              "%s  [%s]" % (why, c))
+    finally:
+        shutil.rmtree(wd, ignore_errors=True)
+
+
 def check(run):
     proofs_ok = run.proofs()
     mult = 1 if proofs_ok else 10
+    load_stage(run, proofs_ok)
     wd = tempfile.mkdtemp(prefix="wal-C08-")
     try:
         mode, impl = W.stable_harness(wd)
@@ -359,12 +413,34 @@ def check(run):
                            "inside the image); every opened image is then used by a second session (more work, sync, clean close, reopen); "
                            "a case = (history, checksum/buffer mode); non-trivial = at least one writer operation ran inside the call",
                       assumptions=["writer interleavings are generated only at chunk boundaries of the main-file copy and at the end "
-                                   "of WAL_COPY1 (wal_lock_interceptor), where the backup holds no lock; free-running schedules, stage "
-                                   "WAL_COPY2 and the checkpoint thread are NOT covered (partial, as DESIGN says for C07/C08)"])
+                                   "of WAL_COPY1 (wal_lock_interceptor), where the backup holds no lock. Stage WAL_COPY2 is covered by its lock "
+                                   "skeleton (every write to the target from the closing savepoint on is made under the store's exclusive "
+                                   "lock - observed by interposing pthread_rwlock_wrlock/unlock and write in harness/h_bkpload.c) and by "
+                                   "backups under free-running writer threads doing in-place updates (values whole, one cut per writer, "
+                                   "not older than completed-before-the-call, not newer than issued-at-return); schedules are sampled, "
+                                   "not enumerated; the checkpoint thread is off (timers disabled)"])
 
 
 def replay(run, path):
     r = json.load(open(path))
+    if r.get("harness") == "h_bkpload":
+        impl = vlib.build_harness("h_bkpload")
+        wd = tempfile.mkdtemp(prefix="bkpl-r-")
+        try:
+            bad = 0
+            for rep in range(1 if r["commands"][0].startswith("quiet") else 5):   # a schedule is not replayed exactly: five tries
+                rc, out, err = vlib.run_lines([impl, wd], "\n".join(r["commands"]) + "\n", timeout=1500)
+                for c, o in zip(r["commands"], [l for l in out if l.strip()]):
+                    why = judge_quiet(o) if c.startswith("quiet") else (None if " violations=0" in o else o.split("first=", 1)[-1])
+                    print(c, "->", o)
+                    if why:
+                        print("VIOLATES:", why)
+                        bad = 1
+                if bad:
+                    break
+            return bad
+        finally:
+            shutil.rmtree(wd, ignore_errors=True)
     wd = tempfile.mkdtemp(prefix="wal-C08r-")
     try:
         mode, impl = W.stable_harness(wd)
